@@ -206,9 +206,36 @@ mod node_ptr {
 
 ///////////////////////////////////////////// SkipList /////////////////////////////////////////////
 
+/// The head of the list owns every node.  It is shared between the skip list and its iterators,
+/// so the nodes live for as long as the list or any iterator over it does.
+struct Head<K, V, const MAX_HEIGHT: usize> {
+    ptr: AtomicPtr<Node<K, V, MAX_HEIGHT>>,
+}
+
+impl<K, V, const MAX_HEIGHT: usize> std::ops::Deref for Head<K, V, MAX_HEIGHT> {
+    type Target = AtomicPtr<Node<K, V, MAX_HEIGHT>>;
+
+    fn deref(&self) -> &Self::Target {
+        &self.ptr
+    }
+}
+
+impl<K, V, const MAX_HEIGHT: usize> Drop for Head<K, V, MAX_HEIGHT> {
+    fn drop(&mut self) {
+        let mut ptr = self.ptr.load(Ordering::Acquire);
+        while !ptr.is_null() {
+            let to_drop = ptr;
+            ptr = node_ptr::get_next(ptr, 0);
+            #[cfg(rescrv_blue_verif)]
+            crate::verif::unregister(to_drop as usize);
+            drop(unsafe { Box::from_raw(to_drop) });
+        }
+    }
+}
+
 /// A lock-free skip list, generic over keys and values.
 pub struct SkipList<K, V, const MAX_HEIGHT: usize = DEFAULT_MAX_HEIGHT> {
-    head: Arc<AtomicPtr<Node<K, V, MAX_HEIGHT>>>,
+    head: Arc<Head<K, V, MAX_HEIGHT>>,
 }
 
 impl<K: Eq + Ord + Default, V: Default, const MAX_HEIGHT: usize> SkipList<K, V, MAX_HEIGHT> {
@@ -388,21 +415,10 @@ impl<K: Eq + Ord + Default, V: Default, const MAX_HEIGHT: usize> Default
         for idx in 0..MAX_HEIGHT {
             node_ptr::set_next(head, idx, std::ptr::null_mut());
         }
-        let head = Arc::new(AtomicPtr::new(head));
+        let head = Arc::new(Head {
+            ptr: AtomicPtr::new(head),
+        });
         Self { head }
-    }
-}
-
-impl<K, V, const MAX_HEIGHT: usize> Drop for SkipList<K, V, MAX_HEIGHT> {
-    fn drop(&mut self) {
-        let mut ptr = self.head.load(Ordering::Acquire);
-        while !ptr.is_null() {
-            let to_drop = ptr;
-            ptr = node_ptr::get_next(ptr, 0);
-            #[cfg(rescrv_blue_verif)]
-            crate::verif::unregister(to_drop as usize);
-            drop(unsafe { Box::from_raw(to_drop) });
-        }
     }
 }
 
@@ -411,7 +427,7 @@ impl<K, V, const MAX_HEIGHT: usize> Drop for SkipList<K, V, MAX_HEIGHT> {
 /// A SkipList iterator.  Will outlast the skip list it comes from if so chosen.
 #[derive(Clone)]
 pub struct SkipListIterator<K, V, const MAX_HEIGHT: usize = DEFAULT_MAX_HEIGHT> {
-    head: Arc<AtomicPtr<Node<K, V, MAX_HEIGHT>>>,
+    head: Arc<Head<K, V, MAX_HEIGHT>>,
     node: *mut Node<K, V, MAX_HEIGHT>,
 }
 
